@@ -304,7 +304,7 @@ Proof. intros H. unfold unlock_security_access. replace (algo cfg <=? 0) with tr
 Lemma algo_run_event cfg seed level :
   exists lvl prm, snd (algo_run cfg seed level) = EvALGO seed lvl prm /\ (lvl = level \/ lvl = -1).
 Proof.
-  unfold algo_run. destruct ((algo cfg =? 1) || (algo cfg =? 6)); [|destruct ((algo cfg =? 2) || (algo cfg =? 5) || (algo cfg =? 7))]; cbn [snd]; eauto.
+  unfold algo_run. destruct ((algo cfg =? 1) || (algo cfg =? 6)); [|destruct ((algo cfg =? 2) || (algo cfg =? 5) || (algo cfg =? 7) || (algo cfg =? 8))]; cbn [snd]; eauto.
 Qed.
 
 Definition sa_sid : Z := 39.
